@@ -90,11 +90,13 @@ def calendars_in_force(case, out):
     for r in case['resources']:
         cals[r['name']] = r['cal']                 # Resource objects are keyed by name, the last one wins
     for name, cal in case.get('edit_calendars') or []:
-        inpl = {json.dumps(n): m for n, m in (out.get('edited_in_place') or [])}
+        inpl = {json.dumps(n): (mode, m) for n, mode, m in (out.get('edited_in_place') or [])}
         if json.dumps(name) in inpl:
-            # edited in place: the resource's calendar is `cal - DirectCalendar({})` whose dated operand got set_units
-            # between the two calculations
-            cals[name] = ['binc', 'sub', cals[name], ['datedset', [], inpl[json.dumps(name)]]]
+            # edited in place: the resource's calendar is `DirectCalendar({}) | cal` or `cal - DirectCalendar({})` whose
+            # dated operand got set_units between the two calculations
+            mode, more = inpl[json.dumps(name)]
+            dated = ['datedset', [], more]
+            cals[name] = ['binc', 'or', dated, cals[name]] if mode == 'or' else ['binc', 'sub', cals[name], dated]
         elif name in cals:
             cals[name] = cal                       # resource.calendar = ... between the two calculations
     res = []
